@@ -6,19 +6,19 @@ RULE = ("P1: the multiplicative loop of binom_coeff with its overflow guard is m
         "limbs; the definition C(n,k) = C(n-1,k-1) + C(n-1,k)), checks symmetry and that the multiplicative formula "
         "agrees with it for n <= 30, evaluates the multiplicative formula for n in {100, 1e3, 1e4, 1e5, 2e5}, k <= 32 "
         "and - with big-natural multiplication - for five n between 2^32 and 2^33 (incl. the largest n whose C(n,2) "
-        "fits in 64 bits and its successor), k <= 3 and mirrored, with the 'fits in 64 bits' predicate; Box-Cox values "
-        "(x^lambda - 1)/lambda on rational points (lambda in +-2, +-1, +-1/2, 3 with perfect-square x for half-"
-        "integers); P2: binom_coeff for all 2346 pairs n <= 67 and every large-n pair whose value fits in 64 bits "
-        "against the exact integers, symmetry and Pascal's rule on the implementation's own values, the gamma-based "
-        "alternative for n <= 40; boxcox and boxcox_shifted (shifts of both signs) on the rational points, lambda = 0 "
-        "(the logarithm), |lambda| = 2^-30, rejection outside x + shift > 0; a 350-point mpmath table "
-        "(spec/ref/boxcox.ndjson: x from 2^-19 to 1e6, |lambda| from 2^-34 to 5) within the conditioning bound 16 eps "
-        "max(1, x^lambda)/|lambda| of the definition; identities on grids: logistic(0) = 1/2, reflection, range and "
-        "monotonicity on every multiple of 1/8 in +-745, logit inverts logistic on -700..16, logistic inverts logit for"
-        " p = 2^-1..2^-1000 (relative) and 1 - 2^-k, logit(1 - 2^-k) = ln(2^k - 1) and logit(2^-k) = -ln(2^k - 1) for k"
-        " <= 53, subnormal p, end points / rejection outside [0,1]; softmax: equal inputs of magnitude up to +-1e4 give"
-        " 1/n, non-negative, sum 1, order preserving, shift invariant for lengths 1..1000. Case class = (function, "
-        "input class).")
+        "fits in 64 bits and its successor) and for 2^63 - 1, 2^63, 2^63 + 1, 2^64 - 1, k <= 3 and mirrored, with the "
+        "'fits in 64 bits' predicate; Box-Cox values (x^lambda - 1)/lambda on rational points (lambda in +-2, +-1, "
+        "+-1/2, 3 with perfect-square x for half-integers); P2: binom_coeff for all 2346 pairs n <= 67 and every "
+        "large-n pair whose value fits in 64 bits against the exact integers, symmetry and Pascal's rule on the "
+        "implementation's own values, the gamma-based alternative for n <= 40; boxcox and boxcox_shifted (shifts of "
+        "both signs) on the rational points, lambda = 0 (the logarithm), |lambda| = 2^-30, rejection outside x + shift "
+        "> 0; a 350-point mpmath table (spec/ref/boxcox.ndjson: x from 2^-19 to 1e6, |lambda| from 2^-34 to 5) within "
+        "the conditioning bound 16 eps max(1, x^lambda)/|lambda| of the definition; identities on grids: logistic(0) = "
+        "1/2, reflection, range and monotonicity on every multiple of 1/8 in +-745, logit inverts logistic on -700..16,"
+        " logistic inverts logit for p = 2^-1..2^-1000 (relative) and 1 - 2^-k, logit(1 - 2^-k) = ln(2^k - 1) and "
+        "logit(2^-k) = -ln(2^k - 1) for k <= 53, subnormal p, end points / rejection outside [0,1]; softmax: equal "
+        "inputs of magnitude up to +-1e4 give 1/n, non-negative, sum 1, order preserving, shift invariant for lengths "
+        "1..1000. Case class = (function, input class).")
 ASSUMPTIONS = ["logistic / softmax / logit identities are relational observations evaluated by the harness on fixed grids (the spec cannot define exp)",
                "the dense f32 sweep of the quantifier is replaced by the 1/8 grid over +-745"]
 EXHAUSTIVE = True
